@@ -2,10 +2,13 @@ SPECIFICATION Spec
 CONSTANTS
   Pool <- PoolN
   Kids <- KidsN
+  TypeOf <- TypeN
+  HashOf <- HashN
   MaxEnc = 3
   Aux = FALSE
   AllowUnregistered = FALSE
   PinDecoded = FALSE
+  SeenByHashOnly = FALSE
   Emitting = TRUE
 CHECK_DEADLOCK FALSE
 INVARIANTS
